@@ -11,123 +11,26 @@ from .ctables import py_enum
 IGNORED_EFFECTS = {"PyErr_Clear"}
 
 
-class Sym:
-    """Symbolic evaluation of expressions along one path: locals are replaced
-    by the (already substituted) expression last assigned to them."""
-
-    def __init__(self, seed):
-        self.env = dict(seed)
-        self.params = set()
-
-    def text(self, n):
-        n = strip(n)
-        if n is None:
-            return "?"
-        k = n.kind
-        T = self.text
-        if k == "DeclRefExpr":
-            nm = n.ref or "?"
-            if n.refkind == "VarDecl" and nm in self.env:
-                return self.env[nm]
-            return nm
-        if k == "BinaryOperator" and n.op == "=":
-            v = var(n.ch[0])
-            rhs = T(n.ch[1])
-            if v:
-                self.env[v] = rhs
-                return rhs
-            return f"({T(n.ch[0])} = {rhs})"
-        if k == "UnaryOperator" and n.op in ("++", "--"):
-            v = var(n.ch[0])
-            if v:
-                old = self.env.get(v, v)
-                self.env[v] = f"({old}{n.op[0]}1)"
-                return old if (n.extra or {}).get("postfix") else self.env[v]
-        if k == "MemberExpr":
-            t = f"{T(n.ch[0])}{'->' if n.arrow else '.'}{n.name}"
-            return self.env.get(t, t)
-        if k == "IntegerLiteral":
-            return str(n.value)
-        if k in ("FloatingLiteral", "CharacterLiteral", "StringLiteral"):
-            return str(n.value)
-        if k == "CallExpr":
-            c = callee(n)
-            f = c if c != "?" and not c.startswith("->") else T(n.ch[0])
-            return f"{f}({', '.join(T(a) for a in n.ch[1:])})"
-        if k in ("BinaryOperator", "CompoundAssignOperator"):
-            l, r = T(n.ch[0]), T(n.ch[1])
-            if n.op in ("==", "!=", "+", "*", "&", "|") and r < l:
-                l, r = r, l
-            return f"({l} {n.op} {r})"
-        if k == "UnaryOperator":
-            return f"{n.op}{T(n.ch[0])}"
-        if k == "ArraySubscriptExpr":
-            return f"{T(n.ch[0])}[{T(n.ch[1])}]"
-        if k == "ConditionalOperator":
-            return f"({T(n.ch[0])} ? {T(n.ch[1])} : {T(n.ch[2])})"
-        if k == "VarDecl":
-            init = [c for c in n.ch if c.kind != "UnusedAttr"]
-            if init:
-                self.env[n.name] = T(init[-1])
-                return self.env[n.name]
-            return n.name
-        return cnorm(n)
+from ..csym import sym_paths
 
 
 def _rows(g, start, seed, stop_nodes, func_name):
     """Symbolic rows from ``start``: (atoms, effects, outcome, lines)."""
     rows = []
-
-    def go(nid, sym_env, atoms, effects, lines, counts):
-        if len(rows) > 4000:
-            raise AnalysisError(f"{func_name}: too many paths")
-        node = g.nodes[nid]
-        if nid in stop_nodes:
-            rows.append((tuple(atoms), tuple(effects), (stop_nodes[nid],),
-                         list(lines)))
-            return
-        sym = Sym(sym_env)
-        new_eff = list(effects)
-        new_atoms = list(atoms)
-        outcome = None
-        if node.kind == "return":
-            if node.ast.ch:
-                rv = sym.text(node.ast.ch[0])
-                c = strip(node.ast.ch[0])
-                if c.kind == "CallExpr" and callee(c) == "raise_trait_error":
-                    outcome = ("REJECT",)
-                else:
-                    outcome = ("RETURN", rv)
-            else:
-                outcome = ("RETURN", "")
-            rows.append((tuple(new_atoms), tuple(new_eff), outcome,
-                         list(lines) + [node.line]))
-            return
-        if node.kind == "stmt":
-            a = strip(node.ast)
-            if a.kind == "CallExpr":
-                c = callee(a)
-                t = sym.text(a)
-                if c not in IGNORED_EFFECTS:
-                    new_eff.append(t)
-            else:
-                sym.text(node.ast)      # assignments update the environment
-        if node.kind == "switch":
-            pass
-        for lab, tgt in g.succ[nid]:
-            cnt = counts.get(tgt, 0)
-            if cnt >= 2:
-                continue
-            a2 = list(new_atoms)
-            s2 = Sym(sym.env)
-            if node.kind == "cond":
-                a2.append((s2.text(node.ast), lab == "T"))
-            elif node.kind == "switch":
-                continue      # nested switches are not expected in an arm
-            counts[tgt] = cnt + 1
-            go(tgt, s2.env, a2, new_eff, lines + [node.line], counts)
-            counts[tgt] = cnt
-    go(start, dict(seed), [], [], [], {start: 1})
+    for p in sym_paths(g, start=start, seed=seed, stops=stop_nodes,
+                       max_paths=4000, name=func_name):
+        atoms = tuple((t, truth) for t, truth, _ in p.atoms)
+        effects = tuple(e[2] for e in p.events
+                        if e[4] and e[0] not in IGNORED_EFFECTS)
+        if p.outcome[0] == "RETURN":
+            rv = p.outcome[1]
+            outcome = ("REJECT",) if rv.startswith("raise_trait_error(") \
+                else ("RETURN", rv)
+        elif p.outcome[0] == "STOP":
+            outcome = (p.outcome[1],)
+        else:
+            outcome = ("END",)
+        rows.append((atoms, effects, outcome, p.lines))
     return rows
 
 
